@@ -125,6 +125,7 @@ func classString(set func(int64) bool) string {
 func c06(c *core.Check) {
 	c.Explain = "Thin: the lexical tables of CSS Syntax 3 as they appear in the tokenizer, decided by constant evaluation of the source: (R1) input preprocessing replaces NUL by U+FFFD and CRLF, CR, FF by LF, CRLF before CR; (R2) the code point classes — name-start, name, whitespace — evaluated for every code point 0..0x100 from the predicates' expressions equal the classes of §4.2; (R3) the number and hex-escape grammars (the two regular expressions, extracted as constants) accept exactly the prefix the railroad diagrams of §4.3.12 / §4.3.7 assign on a battery derived from the diagrams; (R4) a quoted string ends at its quote, is a bad string at an unescaped newline, and drops an escaped newline. Token values in general, url(), nested blocks, error recovery (how much input a malformed construct consumes) and source positions quantify over all input strings and are not decided; that no cursor read leaves the input is decided under C07.R1."
 	p := c.Prog
+	c06Trivia(c)
 
 	// ---- R1 preprocessing
 	r1 := c.Rule("R1", "Tokenize preprocesses its input as CSS Syntax §3.3: U+0000 becomes U+FFFD, and CRLF, CR and FF become LF, the CRLF replacement coming before the CR one (otherwise CRLF becomes two newlines)", 5)
@@ -346,5 +347,117 @@ func c06(c *core.Check) {
 			}
 			r4.Cond(okEsc, "consumeQuotedString | backslash", p.Pos(sw.Pos), "an escaped newline is skipped, anything else is an escape", "the backslash case does not distinguish an escaped newline from an escape")
 		}
+	}
+}
+
+// c06Trivia: comments are to the parser what white space is (CSS Syntax strips comments in the tokenizer; this parser
+// keeps them as tokens when asked to, so every place that steps over white space must step over comments too).
+func c06Trivia(c *core.Check) {
+	p := c.Prog
+	r := c.Rule("R5", "white space and comments are skipped together: in the parsing code, every switch with a case for the white-space token (kind or type) has a case for the comment token, and every condition that excludes white space excludes comments in the same condition", 6)
+	scope := map[string]map[string]bool{
+		"css/parser": {"parser.go": true, "tokenizer.go": true, "colors.go": true, "nth.go": true},
+		"html/tree":  {"style.go": true},
+	}
+	exempt := map[string]string{
+		"String": "Kind.String names each kind",
+	}
+	n := 0
+	for pkg, files := range scope {
+		pk := p.ByPath[pkg]
+		if pk == nil {
+			r.Anchor(pkg)
+			continue
+		}
+		mentions := func(e ast.Node, names ...string) bool {
+			found := false
+			ast.Inspect(e, func(x ast.Node) bool {
+				switch y := x.(type) {
+				case *ast.Ident:
+					for _, nm := range names {
+						if y.Name == nm {
+							found = true
+						}
+					}
+				case *ast.SelectorExpr:
+					for _, nm := range names {
+						if y.Sel.Name == nm {
+							found = true
+						}
+					}
+					return false
+				}
+				return true
+			})
+			return found
+		}
+		for _, f := range pk.Syntax {
+			name := p.Fset.Position(f.Pos()).Filename
+			if i := strings.LastIndex(name, "/"); i >= 0 {
+				name = name[i+1:]
+			}
+			if !files[name] {
+				continue
+			}
+			for _, d := range f.Decls {
+				fd, ok := d.(*ast.FuncDecl)
+				if !ok || fd.Body == nil {
+					continue
+				}
+				if _, ex := exempt[fd.Name.Name]; ex {
+					continue
+				}
+				ast.Inspect(fd.Body, func(x ast.Node) bool {
+					var clauses []*ast.CaseClause
+					switch y := x.(type) {
+					case *ast.SwitchStmt:
+						for _, cl := range y.Body.List {
+							clauses = append(clauses, cl.(*ast.CaseClause))
+						}
+					case *ast.TypeSwitchStmt:
+						for _, cl := range y.Body.List {
+							clauses = append(clauses, cl.(*ast.CaseClause))
+						}
+					case *ast.BinaryExpr:
+						// a maximal && / || chain comparing with the white-space kind
+						if y.Op != token.LAND && y.Op != token.LOR {
+							return true
+						}
+						if mentions(y, "KWhitespace") {
+							n++
+							key := fmt.Sprintf("%s.%s | %s", pkg, fd.Name.Name, p.NodeText(y))
+							if len(key) > 140 {
+								key = key[:140] + "…"
+							}
+							r.Cond(mentions(y, "KComment"), key, p.Pos(y.Pos()), "the condition also tests the comment kind", "the condition steps over white space but not over comments: a comment at that place changes the parse")
+						}
+						return false
+					}
+					if clauses == nil {
+						return true
+					}
+					ws, cm := false, false
+					for _, cl := range clauses {
+						for _, e := range cl.List {
+							if mentions(e, "KWhitespace", "Whitespace") {
+								ws = true
+							}
+							if mentions(e, "KComment", "Comment") {
+								cm = true
+							}
+						}
+					}
+					if ws {
+						n++
+						key := fmt.Sprintf("%s.%s | switch with a white-space case", pkg, fd.Name.Name)
+						r.Cond(cm, key, p.Pos(x.Pos()), "the switch also has a comment case", "the switch has a case for white space and none for comments: a comment at that place is treated as a significant token")
+					}
+					return true
+				})
+			}
+		}
+	}
+	if n < 6 {
+		r.Unknown("white-space tests found", "-", fmt.Sprintf("%d switches / conditions found, 6 expected", n))
 	}
 }
